@@ -120,9 +120,9 @@ CHECKS = {
     note=TB + "; 32-bit wchar_t configuration; two fix: commits in /repo (two crashes on out-of-range code points; second code point truncated to 16 bits before the composition-list comparison); one known finding (U+037E stored as the reserved value 0: not decomposed; the repair contradicts an expectation pinned in the unedited test suite)"),
  "C06": dict(
     engine="pathflags",
-    technique="path-sensitive abstract interpretation with a 'destination budget exhausted before a terminator was copied' flag over the 10 non-truncating copy/concatenate functions; plus (in C05) a checked precondition 'measured strlen(src) < dmax' where the result of a nested copy is ignored; terminator-position typestate for the pointer-returning functions",
+    technique="path-sensitive abstract interpretation with a 'destination budget exhausted before a terminator was copied' flag over the 10 non-truncating copy/concatenate functions; plus (in C05) a checked precondition 'measured strlen(src) < dmax' where the result of a nested copy is ignored; terminator-position typestate for the pointer-returning functions; byte accounting of the memory primitives (linear-arithmetic loop summaries + interval chaining)",
     category="other",
-    text="Decides the clause 'if the complete result does not fit the non-truncating functions fail instead of storing a shortened result': on no path does a success return follow the edge on which the counter initialised from dmax reached zero while data had been written and no terminator copied; every function has such exhausted paths (the rule is not vacuous) and they reach error returns. Also decided: the pointer returned by stpcpy_s/stpncpy_s on every success path is the address of the terminating null (the typestate remembers where the terminator was stored or proven, followed through merge phis). Equality of the stored bytes with strcpy/strcat/memcpy/..., the word-unrolled primitives at each alignment/length and returned counts are value-level and not decided.",
+    text="Decides the clause 'if the complete result does not fit the non-truncating functions fail instead of storing a shortened result': on no path does a success return follow the edge on which the counter initialised from dmax reached zero while data had been written and no terminator copied; every function has such exhausted paths (the rule is not vacuous) and they reach error returns. Also decided: the pointer returned by stpcpy_s/stpncpy_s on every success path is the address of the terminating null (the typestate remembers where the terminator was stored or proven, followed through merge phis). Also decided, for every length and alignment: the seven word-unrolled mem_prim_* primitives write every byte of dest[0 .. len*size) exactly once, in one direction, each element from the same offset of src (byte accounting: linear forms with quotient/remainder ties, a per-iteration progress rule for each of the 17 loops including the 16-way unrolled switch bodies, path walk with summarised loops, interval chaining at the return; mem_prim_move's precondition len >= 1 is established at its call sites). Equality of the bytes stored by the string functions with strcpy/strcat/..., results produced inside libc, and returned counts are value-level and not decided.",
     design_ref="DESIGN.md §4 C06",
     note=TB + "; only the no-silent-truncation clause is claimed"),
  "C14": dict(
